@@ -11,6 +11,7 @@ import (
 	"sort"
 	"sync"
 	"sync/atomic"
+	"syscall"
 	"time"
 
 	"github.com/opencontainers/go-digest"
@@ -59,6 +60,10 @@ type xferResult struct {
 	late             [2]int32
 	alive            int
 	aliveAt          string
+	hasherN          int
+	tornDown         bool
+	sendAfterTear    float64
+	recvAfterTear    float64
 	leaked           int
 }
 
@@ -72,6 +77,16 @@ type xferOpts struct {
 	metaOnly   map[string]bool // metadata-only selector (nil = off)
 	cfg        streamCfg
 	timeout    time.Duration
+	fault      *faultPlan
+}
+
+// faultPlan: one injected fault (C04). Stream faults are in cfg.Fail*; the others are here.
+type faultPlan struct {
+	kind     string // cancel | walk | read | hasher | notify | kill | (stream faults are configured in cfg)
+	at       int
+	path     string
+	off      int
+	teardown time.Duration // the stream is torn down this long after the start if the calls have not returned
 }
 
 // runXfer runs fsutil.Send(src) against fsutil.Receive(dest) over the instrumented pipe.
@@ -89,7 +104,12 @@ func runXfer(src fsutil.FS, dest string, o xferOpts, log *evLog) *xferResult {
 		ropt.ContentHasher = func(st *types.Stat) (hash.Hash, error) {
 			mu.Lock()
 			res.hasherStats[st.Path] = append(res.hasherStats[st.Path], st.Clone())
+			res.hasherN++
+			hn := res.hasherN
 			mu.Unlock()
+			if o.fault != nil && o.fault.kind == "hasher" && hn >= o.fault.at {
+				return nil, errInjected
+			}
 			h := sha256.New()
 			h.Write(statHeader(st))
 			return h, nil
@@ -106,7 +126,11 @@ func runXfer(src fsutil.FS, dest string, o xferOpts, log *evLog) *xferResult {
 			}
 			mu.Lock()
 			res.notifs = append(res.notifs, rec)
+			nn := len(res.notifs)
 			mu.Unlock()
+			if o.fault != nil && o.fault.kind == "notify" && nn >= o.fault.at {
+				return errInjected
+			}
 			return nil
 		}
 	}
@@ -125,9 +149,25 @@ func runXfer(src fsutil.FS, dest string, o xferOpts, log *evLog) *xferResult {
 	if o.metaOnly != nil {
 		ropt.MetadataOnly = func(p string, st *types.Stat) bool { return o.metaOnly[p] }
 	}
+	if o.fault != nil && (o.fault.kind == "cancel" || o.fault.kind == "kill") {
+		var delivered int32
+		hook := func(p *types.Packet) {
+			if int(atomic.AddInt32(&delivered, 1)) == o.fault.at {
+				if o.fault.kind == "kill" {
+					syscall.Kill(syscall.Getpid(), syscall.SIGKILL)
+				}
+				log.add(logEv{End: "-", Kind: "cancel"})
+				cancel()
+			}
+		}
+		s.onRecv = hook
+		r.onRecv = hook
+	}
+	var sendRetAt, recvRetAt time.Time
 	done := make(chan struct{}, 2)
 	go func() {
 		res.sendErr = fsutil.Send(ctx, s, src, nil)
+		sendRetAt = time.Now()
 		res.sendRet = true
 		log.add(logEv{End: "S", Kind: "return", N: b2i(res.sendErr != nil)})
 		s.closeSend()
@@ -135,6 +175,7 @@ func runXfer(src fsutil.FS, dest string, o xferOpts, log *evLog) *xferResult {
 	}()
 	go func() {
 		res.recvErr = fsutil.Receive(ctx, r, dest, ropt)
+		recvRetAt = time.Now()
 		res.recvRet = true
 		log.add(logEv{End: "R", Kind: "return", N: b2i(res.recvErr != nil)})
 		r.closeSend()
@@ -144,16 +185,22 @@ func runXfer(src fsutil.FS, dest string, o xferOpts, log *evLog) *xferResult {
 	if to == 0 {
 		to = 20 * time.Second
 	}
+	if o.fault != nil && o.fault.teardown > 0 {
+		to = o.fault.teardown
+	}
 	timer := time.NewTimer(to)
 	n := 0
+	var tornAt time.Time
 	for n < 2 {
 		select {
 		case <-done:
 			n++
 		case <-timer.C:
-			// neither a fault nor a teardown was requested: a hang. tear down so the goroutines can end.
+			// tear the stream down: from now on every pending and later stream call fails; both calls must return
 			sh.teardown()
-			t2 := time.NewTimer(5 * time.Second)
+			tornAt = time.Now()
+			res.tornDown = true
+			t2 := time.NewTimer(3 * time.Second)
 			for n < 2 {
 				select {
 				case <-done:
@@ -165,8 +212,16 @@ func runXfer(src fsutil.FS, dest string, o xferOpts, log *evLog) *xferResult {
 			}
 		}
 	}
+	if res.tornDown {
+		if res.sendRet {
+			res.sendAfterTear = sendRetAt.Sub(tornAt).Seconds()
+		}
+		if res.recvRet {
+			res.recvAfterTear = recvRetAt.Sub(tornAt).Seconds()
+		}
+	}
 	res.overlaps = [4]int32{s.overlapS, s.overlapR, r.overlapS, r.overlapR}
-	res.alive, res.aliveAt = waitQuiesce(300 * time.Millisecond)
+	res.alive, res.aliveAt = waitQuiesce(500 * time.Millisecond)
 	res.late = [2]int32{atomic.LoadInt32(&s.late), atomic.LoadInt32(&r.late)}
 	return res
 }
